@@ -766,9 +766,9 @@ def run_points(case, ctx):
 
 
 TESTS = [
-    Test('ensemble', run_ensemble, strategy=lambda tier: ens_cases(tier), examples={'quick': 2000, 'thorough': 36000}),
-    Test('wrapper', run_wrapper, strategy=lambda tier: wrapper_cases(tier), examples={'quick': 1200, 'thorough': 18000}),
-    Test('points', run_points, strategy=lambda tier: point_cases(tier), examples={'quick': 6000, 'thorough': 100000}),
+    Test('ensemble', run_ensemble, strategy=lambda tier: ens_cases(tier), examples={'quick': 2000, 'thorough': 30000}),
+    Test('wrapper', run_wrapper, strategy=lambda tier: wrapper_cases(tier), examples={'quick': 1200, 'thorough': 15000}),
+    Test('points', run_points, strategy=lambda tier: point_cases(tier), examples={'quick': 6000, 'thorough': 80000}),
 ]
 
 
